@@ -141,6 +141,11 @@ def jobs(tier):
     for K in (1, 2, 3) + ((4,) if tier == "thorough" else ()):
         js.append(Job(f"item-step-vs-reference/enc1/K{K}", c01.job_item_step, dict(K=K, with_reference=True, timeout_s=1500 if tier == "quick" else 3300),
                       "follows_documented_rule", 1700 if tier == "quick" else 3500, weight=K, optional=True))
+    for K in (1, 2, 3) + ((4,) if tier == "thorough" else ()):
+        for pat in c01.growth_patterns(K):
+            js.append(Job(f"item-step-vs-reference/enc2/K{K}/{''.join(map(str, pat))}", c01.job_item_step2,
+                          dict(K=K, pattern=list(pat), with_reference=True, timeout_s=1500 if tier == "quick" else 3300),
+                          "follows_documented_rule", 1700 if tier == "quick" else 3500, weight=K, optional=True))
     for enc in (1, 2):
         for n in range(1, 4):
             for reps in P.compositions(n):
